@@ -38,6 +38,7 @@ func init() {
 		"add": 6, "remove": 5, "addmany": 10, "addrange": 8, "removerange": 6, "flip": 5, "clear": 1,
 		"runopt": 4, "clone": 4, "detach": 1, "setcow": 3,
 		"binop": 6, "ibinop": 6, "card": 2, "flipstatic": 2, "addoffset": 2, "agg": 3, "andany": 1, "gc": 1,
+		"thresh": 4, "pair": 3,
 	}
 	with := func(over map[string]int) *profile {
 		m := map[string]int{}
@@ -53,14 +54,29 @@ func init() {
 	for k, v := range io {
 		base[k] = v
 	}
+	for _, k := range []string{"add64", "remove64", "addmany64", "addrange64", "removerange64", "flip64", "maint64", "binop64", "flipstatic64", "agg64", "query64", "from32", "rt64", "trunc64", "corrupt64"} {
+		base[k] = 0
+	}
 	profiles["default"] = with(nil)
+	only := func(m map[string]int) *profile {
+		all := map[string]int{}
+		for k := range base {
+			all[k] = 0
+		}
+		for k, v := range m {
+			all[k] = v
+		}
+		return mkProfile(all)
+	}
+	profiles["C17"] = only(map[string]int{"add64": 10, "remove64": 9, "addmany64": 10, "addrange64": 10, "removerange64": 10, "flip64": 8, "maint64": 8, "binop64": 16, "flipstatic64": 6, "agg64": 6, "query64": 8, "from32": 1, "addmany": 1, "gc": 1})
+	profiles["C18"] = only(map[string]int{"add64": 6, "remove64": 4, "addmany64": 10, "addrange64": 8, "removerange64": 6, "flip64": 4, "maint64": 6, "binop64": 6, "rt64": 25, "trunc64": 6, "corrupt64": 20})
 	profiles["C04"] = with(map[string]int{"cur-open": 14, "cur-step": 45, "iterfn": 14, "runopt": 6, "binop": 2, "ibinop": 2, "agg": 0, "andany": 0, "flipstatic": 0, "addoffset": 0})
 	profiles["C05"] = with(map[string]int{"rt": 30, "wfault": 8, "runopt": 8, "agg": 1, "unmap": 2})
 	profiles["C10"] = with(map[string]int{"trunc": 10, "corrupt": 45, "rfault": 4, "mustread": 5, "rt": 3, "runopt": 8, "unmap": 1})
 	profiles["C13"] = with(map[string]int{"freeze": 30, "runopt": 8, "unmap": 3, "gc": 6})
 	profiles["C08"] = with(map[string]int{"rt": 14, "freeze": 10, "unmap": 8, "detach": 6, "gc": 5, "dense": 3, "clone": 8, "binop": 10, "ibinop": 10, "agg": 5, "setcow": 1})
-	profiles["C01"] = with(map[string]int{"binop": 20, "ibinop": 20, "card": 8, "runopt": 6})
-	profiles["C02"] = with(map[string]int{"add": 12, "remove": 10, "addmany": 14, "addrange": 14, "removerange": 12, "flip": 10, "binop": 2, "ibinop": 2, "agg": 1})
+	profiles["C01"] = with(map[string]int{"binop": 20, "ibinop": 20, "card": 8, "runopt": 6, "pair": 16})
+	profiles["C02"] = with(map[string]int{"add": 12, "remove": 10, "addmany": 14, "addrange": 14, "removerange": 12, "flip": 10, "binop": 2, "ibinop": 2, "agg": 1, "thresh": 10, "clone": 6, "setcow": 5})
 	profiles["C07"] = with(map[string]int{"clone": 8, "setcow": 8, "binop": 10, "ibinop": 10, "agg": 10, "flipstatic": 4, "addoffset": 4, "andany": 3})
 	profiles["C09"] = with(map[string]int{"runopt": 8, "agg": 8, "andany": 5, "addoffset": 6, "flipstatic": 5, "removerange": 10, "flip": 8})
 	profiles["C14"] = profiles["C09"]
